@@ -402,3 +402,78 @@ def flat_encode(items, vals):
                 for p, x in zip(ps, row):
                     out += _enc_prim(p, x)
     return out
+
+
+def _dec_prim(p, data):
+    """bytes consumed by one primitive at the head of data, or None when data is too short"""
+    k, n = p
+    if len(data) < n:
+        return None
+    if k in ("U", "S"):
+        return n
+    ln = int.from_bytes(data[:n], "little")
+    return n + ln if len(data) >= n + ln else None
+
+
+def _dec_row(ps, data):
+    used = 0
+    for p in ps:
+        c = _dec_prim(p, data[used:])
+        if c is None:
+            return None
+        used += c
+    return used
+
+
+def flat_decodes(items, data):
+    """independent statement of "the payload decodes fully under this schema" (trailing bytes are tolerated, as the
+    library tolerates them): True / False, or None for a schema with a special item this decoder does not state (PAD)"""
+    data = bytes(data)
+    first = None
+    for i, it in enumerate(items):
+        if it[0] == "PAD":
+            return None
+        if it[0] == "P":
+            c = _dec_prim(it[1], data)
+            if c is None:
+                return False
+            if i == 0 and it[1][0] == "U":
+                first = int.from_bytes(data[:it[1][1]], "little")
+            data = data[c:]
+        elif it[0] == "LV":
+            if len(data) < it[1]:
+                return False
+            n = int.from_bytes(data[:it[1]], "little")
+            data = data[it[1]:]
+            for _ in range(n):
+                c = _dec_row(it[2], data)
+                if c is None:
+                    return False
+                data = data[c:]
+        elif it[0] == "FX":
+            for _ in range(it[1]):
+                c = _dec_row(it[2], data)
+                if c is None:
+                    return False
+                data = data[c:]
+        elif it[0] == "REST":
+            while data:
+                c = _dec_row(it[1], data)
+                if c is None or c == 0:
+                    return False if c is None else True
+                data = data[c:]
+        elif it[0] == "OPT":
+            if data:
+                c = _dec_row(it[1], data)
+                if c is None:
+                    return False
+                data = data[c:]
+        elif it[0] == "REQ0":
+            if first == 0:
+                c = _dec_row(it[1], data)
+                if c is None:
+                    return False
+                data = data[c:]
+        else:
+            return None
+    return True
